@@ -89,7 +89,7 @@ META = {
         technique="rapid stateful histories with scrape operations; decoded Collect() output compared with the settled-position / membership model",
         text="The real metric collector over the real stream and the real VBucketDiscovery (dynamic membership via the event bus) is scraped at "
              "generated points incl. before open and inside a rebalance, with server high seqnos placed below/at/above the tracked positions.",
-        note="HTTP layer (fiber/prometheus registry) not exercised; /states/offset serves the same GetOffsets() map C04 checks. persist_seq_no, latency and agent-queue gauges are not asserted.",
+        note="A share of the histories goes through the real HTTP API (fiber + prometheus registry, GET /metrics and GET /states/offset in a child process); persist_seq_no, latency and agent-queue gauges are not asserted.",
     ),
     "C07": dict(
         technique="exhaustive enumeration of replica tables + rapid schedules of threshold reports against a real observer gate + rapid report sequences on a simulated multi-node cluster with request-count synchronisation",
